@@ -44,6 +44,7 @@ type RuleTable struct {
 	Rules      map[string][]string // non-deprecated rule ID -> non-deprecated categories
 	Categories map[string][]string // category -> rule IDs
 	AllIDs     []string
+	Defaults   []string // rules that run when the configuration has no `use` key (Rule.Default())
 }
 
 var versions = []struct {
@@ -72,6 +73,9 @@ func loadRuleTables(ctx context.Context) ([]*RuleTable, error) {
 				continue
 			}
 			t.Rules[r.ID()] = []string{}
+			if r.Default() {
+				t.Defaults = append(t.Defaults, r.ID())
+			}
 			for _, c := range r.Categories() {
 				if c.Deprecated() {
 					continue
@@ -81,6 +85,7 @@ func loadRuleTables(ctx context.Context) ([]*RuleTable, error) {
 			}
 		}
 		t.AllIDs = bufx.SortedKeys(t.Rules)
+		sort.Strings(t.Defaults)
 		for c := range t.Categories {
 			sort.Strings(t.Categories[c])
 		}
@@ -91,8 +96,15 @@ func loadRuleTables(ctx context.Context) ([]*RuleTable, error) {
 
 // Config is one lint configuration.
 type Config struct {
-	Table  *RuleTable
-	Use    string          // a category, a rule ID, or "ALL"; suffix "+PV" keeps PROTOVALIDATE (see pvRule)
+	Table *RuleTable
+	// Use is `<what>[+PV][@<layout>]`.
+	//   what:   a category, a rule ID, "ALL" (every rule ID listed under use:), or "NOUSE" (no use: key at
+	//           all: the lint block consists of the rule options only, the default rules run);
+	//           the suffix "+PV" keeps PROTOVALIDATE (see pvRule)
+	//   layout: where the lint block is written in buf.yaml: "" top-level `lint:`; "module" (v2) the lint
+	//           block of an explicit `modules: [{path: .}]` entry; "module-over-top" (v2) the same plus a
+	//           top-level `lint:` block that sets the same keys to other values (the module's block wins)
+	Use    string
 	Active map[string]bool // rules selected
 	Opts   LintOpts
 	lint   bufconfig.LintConfig
@@ -103,23 +115,55 @@ func (c *Config) String() string { return c.Table.Version + "/" + c.Use }
 
 // pvRule is excluded (through `except`) from the bulk configurations: it costs ~100x any other rule
 // (a CEL environment per field) and is silent on schemas without protovalidate options. Configurations
-// named "<X>+PV" keep it; they are run on a declared subset of the cases.
+// named "<X>+PV" keep it; they are run on a declared subset of the cases. NOUSE configurations keep it
+// too where it is a default rule (an `except:` key would defeat their purpose).
 const pvRule = "PROTOVALIDATE"
 
+const (
+	layoutModule        = "module"
+	layoutModuleOverTop = "module-over-top"
+	noUse               = "NOUSE"
+)
+
+// errNoSuchConfig: the requested layout does not exist for these keys (nothing to contradict).
+var errNoSuchConfig = fmt.Errorf("c05: configuration shape does not exist")
+
 var configCache sync.Map
+
+func indentLines(text, indent string) string {
+	if text == "" {
+		return ""
+	}
+	lines := strings.Split(strings.TrimSuffix(text, "\n"), "\n")
+	return indent + strings.Join(lines, "\n"+indent) + "\n"
+}
 
 func newConfig(t *RuleTable, use string, opts LintOpts) (*Config, error) {
 	key := fmt.Sprintf("%s|%s|%+v", t.Version, use, opts)
 	if c, ok := configCache.Load(key); ok {
+		if c.(*Config) == nil {
+			return nil, errNoSuchConfig
+		}
 		return c.(*Config), nil
 	}
 	c := &Config{Table: t, Use: use, Active: map[string]bool{}, Opts: opts}
-	base := strings.TrimSuffix(use, "+PV")
-	withPV := base != use || base == pvRule
+	what, layout := use, ""
+	if i := strings.Index(use, "@"); i >= 0 {
+		what, layout = use[:i], use[i+1:]
+	}
+	if layout != "" && t.Version != "v2" {
+		return nil, fmt.Errorf("layout %q needs a v2 buf.yaml", layout)
+	}
+	base := strings.TrimSuffix(what, "+PV")
+	withPV := base != what || base == pvRule || base == noUse
 	var useIDs []string
 	switch {
 	case base == "ALL":
 		useIDs = t.AllIDs
+	case base == noUse:
+		for _, id := range t.Defaults {
+			c.Active[id] = true
+		}
 	default:
 		useIDs = []string{base}
 	}
@@ -137,16 +181,59 @@ func newConfig(t *RuleTable, use string, opts LintOpts) (*Config, error) {
 			return nil, fmt.Errorf("unknown rule or category %q in %s", id, t.Version)
 		}
 	}
-	var sb strings.Builder
-	sb.WriteString("version: " + t.Version + "\nlint:\n  use:\n")
-	for _, id := range useIDs {
-		sb.WriteString("    - " + id + "\n")
+	// the lint block (keys indented by two spaces)
+	var block strings.Builder
+	if len(useIDs) > 0 {
+		block.WriteString("  use:\n")
+		for _, id := range useIDs {
+			block.WriteString("    - " + id + "\n")
+		}
 	}
 	if c.Active[pvRule] && !withPV {
 		delete(c.Active, pvRule)
-		sb.WriteString("  except:\n    - " + pvRule + "\n")
+		block.WriteString("  except:\n    - " + pvRule + "\n")
 	}
-	sb.WriteString(opts.YAML())
+	block.WriteString(opts.YAML())
+	var sb strings.Builder
+	sb.WriteString("version: " + t.Version + "\n")
+	switch layout {
+	case "":
+		if block.Len() > 0 {
+			sb.WriteString("lint:\n" + block.String())
+		}
+	case layoutModule, layoutModuleOverTop:
+		sb.WriteString("modules:\n  - path: .\n")
+		if block.Len() == 0 {
+			// a module entry without lint block is the same configuration as no lint block at all
+			configCache.Store(key, (*Config)(nil))
+			return nil, errNoSuchConfig
+		}
+		sb.WriteString("    lint:\n" + indentLines(block.String(), "    "))
+		if layout == layoutModuleOverTop {
+			// the same keys with other values; boolean options cannot be contradicted (false = unset)
+			var top strings.Builder
+			if len(useIDs) > 0 {
+				other := "MINIMAL"
+				if base == other {
+					other = "COMMENTS"
+				}
+				top.WriteString("  use:\n    - " + other + "\n")
+			}
+			if opts.ZeroSuffix != "" {
+				top.WriteString("  enum_zero_value_suffix: _OTHERWISE\n")
+			}
+			if opts.SvcSuffix != "" {
+				top.WriteString("  service_suffix: Otherwise\n")
+			}
+			if top.Len() == 0 {
+				configCache.Store(key, (*Config)(nil))
+				return nil, errNoSuchConfig
+			}
+			sb.WriteString("lint:\n" + top.String())
+		}
+	default:
+		return nil, fmt.Errorf("unknown layout %q", layout)
+	}
 	f, err := bufx.ReadBufYAML(sb.String())
 	if err != nil {
 		return nil, fmt.Errorf("buf.yaml %q: %w", sb.String(), err)
@@ -388,10 +475,31 @@ type stats struct {
 	collateral                   int // met expectations of a rule other than the planted one
 	buildFailures                int
 	cliCases, cliWithAnnotations int
+	shapeEvals                   map[string]int // "<layout>/<use key or not>/<number of option keys>" -> evaluations
+}
+
+// countShape records the shape of the buf.yaml a case was linted with.
+func (rn *runner) countShape(cfg *Config) {
+	what, layout := cfg.Use, "top"
+	if i := strings.Index(what, "@"); i >= 0 {
+		what, layout = what[:i], what[i+1:]
+	}
+	keys := "use"
+	if what == noUse {
+		keys = "no-use"
+	}
+	optYAML := cfg.Opts.YAML()
+	n := fmt.Sprint(strings.Count(optYAML, "\n"))
+	if n == "1" {
+		n = strings.TrimSpace(strings.SplitN(optYAML, ":", 2)[0]) // the only key
+	}
+	rn.st.mu.Lock()
+	rn.st.shapeEvals[fmt.Sprintf("%s/%s/%s/option-keys=%s", cfg.Table.Version, layout, keys, n)]++
+	rn.st.mu.Unlock()
 }
 
 func newStats() *stats {
-	return &stats{firedByRule: map[string]int{}, primaryByRule: map[string]int{}, opsByRule: map[string]map[string]bool{}, sitesByRule: map[string]map[string]bool{}}
+	return &stats{firedByRule: map[string]int{}, primaryByRule: map[string]int{}, opsByRule: map[string]map[string]bool{}, sitesByRule: map[string]map[string]bool{}, shapeEvals: map[string]int{}}
 }
 
 // Menu levels.
@@ -405,8 +513,24 @@ const (
 //
 // pv adds configurations that keep PROTOVALIDATE: 0 none; 1: v2 ALL+PV; 2: ALL+PV and the rule alone;
 // 3: ALL+PV, STANDARD+PV and the rule alone; 4: ALL+PV and (v2) STANDARD+PV.
-func (t *RuleTable) usesFor(rule string, quick bool, menu int, pv int) []string {
+//
+// shapes adds the configuration shapes other than "top-level lint block with a use key" (see Config.Use):
+// 0 none; 1: the block without a use key in every version and (v2) as a module's lint block, with and
+// without use key; 2: additionally (v2) the module-over-top layouts and the rule alone in a module's block.
+func (t *RuleTable) usesFor(rule string, quick bool, menu int, pv int, shapes int) []string {
 	var uses []string
+	if shapes >= 1 {
+		uses = append(uses, noUse)
+		if t.Version == "v2" {
+			uses = append(uses, noUse+"@"+layoutModule, "ALL@"+layoutModule)
+			if shapes >= 2 {
+				uses = append(uses, noUse+"@"+layoutModuleOverTop, "ALL@"+layoutModuleOverTop)
+				if _, ok := t.Rules[rule]; ok && rule != pvRule {
+					uses = append(uses, rule+"@"+layoutModule)
+				}
+			}
+		}
+	}
 	if menu != menuLite || t.Version != "v1" {
 		uses = append(uses, "ALL")
 	}
@@ -490,7 +614,7 @@ func (rn *runner) lintAndJudge(info CaseInfo, rd *Rendered, image bufimage.Image
 }
 
 // runClean lints one clean workspace under every configuration.
-func (rn *runner) runClean(p Params, singleRules bool, pv int) {
+func (rn *runner) runClean(p Params, singleRules bool, pv int, shapes int) {
 	spec := Build(p)
 	rd := spec.Render()
 	info := CaseInfo{Base: p.Key()}
@@ -504,7 +628,7 @@ func (rn *runner) runClean(p Params, singleRules bool, pv int) {
 	}
 	n := 0
 	for _, t := range rn.tables {
-		uses := t.usesFor("", rn.r.Quick(), menuFull, pv)
+		uses := t.usesFor("", rn.r.Quick(), menuFull, pv, shapes)
 		if singleRules {
 			for _, id := range t.AllIDs {
 				if id != pvRule {
@@ -514,11 +638,15 @@ func (rn *runner) runClean(p Params, singleRules bool, pv int) {
 		}
 		for _, use := range uses {
 			cfg, err := newConfig(t, use, p.Opts())
+			if err == errNoSuchConfig {
+				continue
+			}
 			if err != nil {
 				rn.r.Incomplete(err.Error())
 				continue
 			}
 			rn.lintAndJudge(info, rd, image, nil, cfg, "clean")
+			rn.countShape(cfg)
 			n++
 		}
 	}
@@ -529,7 +657,7 @@ func (rn *runner) runClean(p Params, singleRules bool, pv int) {
 }
 
 // runPlant applies one plant to a fresh clean workspace and lints it under every configuration.
-func (rn *runner) runPlant(p Params, pl Plant, idx int, menu int, pv int) {
+func (rn *runner) runPlant(p Params, pl Plant, idx int, menu int, pv int, shapes int) {
 	spec := Build(p)
 	expects := pl.Apply(spec)
 	rd := spec.Render()
@@ -550,13 +678,17 @@ func (rn *runner) runPlant(p Params, pl Plant, idx int, menu int, pv int) {
 		return
 	}
 	for _, t := range rn.tables {
-		for _, use := range t.usesFor(pl.Rule, rn.r.Quick(), menu, pv) {
+		for _, use := range t.usesFor(pl.Rule, rn.r.Quick(), menu, pv, shapes) {
 			cfg, err := newConfig(t, use, opts)
+			if err == errNoSuchConfig {
+				continue
+			}
 			if err != nil {
 				rn.r.Incomplete(err.Error())
 				continue
 			}
 			fired := rn.lintAndJudge(info, rd, image, expects, cfg, pl.Op)
+			rn.countShape(cfg)
 			rn.st.mu.Lock()
 			if cfg.Active[pl.Rule] {
 				rn.st.plantSelected++
@@ -647,6 +779,31 @@ func cleanFamily(quick bool) []Params {
 					}
 				}
 			}
+			// where request / response messages are declared: other file / other package / nested
+			for rr := 1; rr <= 3; rr++ {
+				for _, v := range []struct {
+					empty      int
+					prr, extra bool
+				}{{0, false, false}, {0, true, true}, {3, false, true}, {1, true, false}} {
+					p := DefaultParams()
+					p.Palette, p.RRPlace, p.Empty, p.PrefixRR = pi, rr, v.empty, v.prr
+					p.Custom, p.FileOpts, p.Body = v.extra, v.extra, v.extra
+					add(p)
+				}
+			}
+			// a single custom suffix option
+			for part := 1; part <= 2; part++ {
+				p := DefaultParams()
+				p.Palette, p.Custom, p.CustomPart = pi, true, part
+				add(p)
+			}
+		}
+		for _, sy := range syntaxes[1:] {
+			for rr := 1; rr <= 3; rr++ {
+				p := DefaultParams()
+				p.SyntaxA, p.RRPlace = sy, rr
+				add(p)
+			}
 		}
 		return out
 	}
@@ -673,6 +830,27 @@ func cleanFamily(quick bool) []Params {
 					add(p)
 				}
 			}
+			// where request / response messages are declared x everything their names depend on
+			for rr := 1; rr <= 3; rr++ {
+				for empty := 0; empty < 4; empty++ {
+					for _, custom := range []bool{false, true} {
+						for _, prr := range []bool{false, true} {
+							p := DefaultParams()
+							p.Palette, p.SyntaxA, p.RRPlace, p.Empty, p.Custom, p.PrefixRR = pi, sy, rr, empty, custom, prr
+							p.FileOpts, p.Body, p.Header = custom != prr, prr, custom
+							add(p)
+						}
+					}
+				}
+			}
+			// a single custom suffix option
+			for part := 1; part <= 2; part++ {
+				for empty := 0; empty < 4; empty++ {
+					p := DefaultParams()
+					p.Palette, p.SyntaxA, p.Custom, p.CustomPart, p.Empty = pi, sy, true, part, empty
+					add(p)
+				}
+			}
 		}
 	}
 	return out
@@ -688,6 +866,8 @@ func plantBases(quick bool) []Params {
 		mk(1, "proto2", "block", "v2", true, true, 3, true, true, true),
 		mk(2, "editions", "multi", "v1beta1", false, false, 1, false, true, false),
 	}
+	// where request / response messages are declared: base 0 keeps the common layout
+	bases[1].RRPlace, bases[2].RRPlace = 3, 1
 	if !quick {
 		bases = append(bases,
 			mk(0, "proto2", "docblock", "v1p1beta1", true, true, 2, true, false, true),
@@ -696,17 +876,21 @@ func plantBases(quick bool) []Params {
 			mk(0, "editions", "block", "v1test", false, true, 3, false, true, true),
 			mk(2, "proto2", "line", "v2", true, false, 2, true, false, false),
 		)
+		bases[3].RRPlace, bases[4].RRPlace, bases[5].RRPlace, bases[6].RRPlace = 2, 1, 3, 2
+		bases[5].CustomPart, bases[6].CustomPart = 2, 1
 	}
 	return bases
 }
 
 func run(r *evid.Run) {
 	ctx := context.Background()
-	r.Rule("clean part: every member of a parameterised clean-by-construction workspace family (name palette x syntax x comment style x package version x rule-option-dependent shapes) x every config version x every category / single rule / all rules; " +
-		"planted part: every (operator, site) of the planting catalogue (>=1 operator per built-in lint rule; sites = every message/enum/field/oneof/enum value/service/RPC/import/package/file of the workspace incl. nested depth 1-2, oneof members, extensions, 2nd file, 2nd package, proto2/proto3/editions files) on each plant base x config version x {all rules, each category, the planted rule alone}. " +
+	r.Rule("clean part: every member of a parameterised clean-by-construction workspace family (name palette x syntax x comment style x package version x rule-option-dependent shapes x where request/response messages are declared: service's file / other file / other package / nested depth 1-2) x every config version x every category / single rule / all rules; " +
+		"planted part: every (operator, site) of the planting catalogue (>=1 operator per built-in lint rule; sites = every message/enum/field/oneof/enum value/service/RPC/import/package/file of the workspace incl. nested depth 1-2, oneof members, extensions, 2nd file, 2nd package, proto2/proto3/editions files) on each plant base x config version x {all rules, each category, the planted rule alone}; " +
+		"configuration shape: for the first two clean members of every distinct rule-option set, the first instance of every operator and every rule-option plant, the lint block is also written without use key (default rules; incl. every rule option as the only key) and (v2) as the lint block of an explicit module entry, alone or over a contradicting top-level block. " +
 		"A distinct non-trivial case is one clean family member or one (base, operator, site) triple; every one of them is a different workspace text.")
 	r.Assume("expected rule IDs and collateral sets are data next to each operator, reviewed against the rules' Purpose strings; which token of the offending element is annotated is fixed per rule (name token for naming rules, declaration start for comment/streaming/uniqueness/package/import/option rules, type token for request/response naming, number token for ENUM_FIRST_VALUE_ZERO)")
-	r.Assume("rule and category membership per config version is read from Client.AllRules (rule selection itself is property C06)")
+	r.Assume("rule and category membership per config version, and which rules run without a use key (Rule.Default), are read from Client.AllRules (rule selection itself is property C06)")
+	r.Assume("v2: a module entry's non-empty lint block is that module's lint configuration; the module-over-top layout only gives other values to keys the module's block sets itself, so no merge semantics are assumed; one module per workspace")
 	r.Assume("files use spaces only (no tabs), ASCII identifiers, LF line ends; comment-ignore directives and ignore paths are out of scope (C06); custom plugins are out of scope")
 
 	tables, err := loadRuleTables(ctx)
@@ -718,6 +902,17 @@ func run(r *evid.Run) {
 
 	// ---- clean part
 	family := cleanFamily(r.Quick())
+	// configuration shapes (no use key, module-level lint block, ...): what they exercise depends on the
+	// set of rule options only, so the first two members of every distinct option set get them
+	cleanShapes := make([]int, len(family))
+	seenOpts := map[LintOpts]int{}
+	for i, p := range family {
+		if seenOpts[p.Opts()] < 2 {
+			cleanShapes[i] = 2
+		}
+		seenOpts[p.Opts()]++
+	}
+	r.Set("clean_family_distinct_option_sets", len(seenOpts))
 	r.ParallelFor(len(family), 0, func(i int) {
 		// every single rule on its own: every 7th member (quick) / every 4th member (thorough);
 		// PROTOVALIDATE-including configurations: every 12th / every 10th member
@@ -730,7 +925,7 @@ func run(r *evid.Run) {
 		} else if i%10 == 0 {
 			pv = 3
 		}
-		rn.runClean(family[i], single, pv)
+		rn.runClean(family[i], single, pv, cleanShapes[i])
 	})
 	r.Set("clean_family_members", len(family))
 
@@ -771,8 +966,11 @@ func run(r *evid.Run) {
 	// PROTOVALIDATE-including configurations: PROTOVALIDATE plants (level 2 quick / 3 thorough); thorough:
 	// the first instance of every operator on the first base (level 4); the first instance of every planted
 	// rule on each base (level 1).
+	// Configuration shapes: level 2 with the full menu; level 1 for every plant that is about a rule
+	// option (it brings its own option set).
 	pv := make([]int, len(jobs))
 	menu := make([]int, len(jobs))
+	shapes := make([]int, len(jobs))
 	seenOp, seenRule := map[string]bool{}, map[string]bool{}
 	for i, j := range jobs {
 		first := j.p.Key() == bases[0].Key()
@@ -800,9 +998,16 @@ func run(r *evid.Run) {
 		case firstOfRule:
 			pv[i] = 1
 		}
+		switch {
+		case j.pl.Heavy:
+		case menu[i] == menuFull:
+			shapes[i] = 2
+		case j.pl.Opts != nil:
+			shapes[i] = 1
+		}
 	}
 	r.ParallelFor(len(jobs), 0, func(i int) {
-		rn.runPlant(jobs[i].p, jobs[i].pl, i, menu[i], pv[i])
+		rn.runPlant(jobs[i].p, jobs[i].pl, i, menu[i], pv[i], shapes[i])
 	})
 
 	// ---- CLI binding
@@ -823,6 +1028,19 @@ func run(r *evid.Run) {
 	r.Set("planted_evaluations_rule_not_selected", st.plantSilent)
 	r.Set("collateral_expectations_met", st.collateral)
 	r.Set("workspaces_not_building", st.buildFailures)
+	r.Set("evaluations_per_config_shape", st.shapeEvals)
+	// every rule option must have been the only key of a lint block, in every layout it can be
+	for _, key := range []string{"enum_zero_value_suffix", "service_suffix", "rpc_allow_same_request_response", "rpc_allow_google_protobuf_empty_requests", "rpc_allow_google_protobuf_empty_responses"} {
+		shapesOfKey := []string{"v2/module/no-use", "v2/module/use", "v2/top/no-use", "v1/top/no-use", "v1beta1/top/no-use"}
+		if strings.HasSuffix(key, "_suffix") {
+			shapesOfKey = append(shapesOfKey, "v2/module-over-top/no-use")
+		}
+		for _, shape := range shapesOfKey {
+			if st.shapeEvals[shape+"/option-keys="+key] == 0 {
+				r.Incomplete("configuration shape never exercised: " + shape + " with " + key + " as the only option")
+			}
+		}
+	}
 	perRule := map[string]any{}
 	allRules := map[string]bool{}
 	for _, t := range tables {
